@@ -1,6 +1,7 @@
 package main
 
 import (
+	"go/types"
 	"fmt"
 	"sort"
 	"strings"
@@ -420,17 +421,82 @@ func ruleUnknownStream(c *Ctx, rule string) {
 	p := c.p
 	f := p.MustFn("goat.handler.processStreamingRpc")
 	has := "has:p:h.streams[p:rpc.Id]"
+	// the "this envelope is a reset" predicate(s): boolean values computed from the envelope's Reset_ field
+	var resetPaths []string
+	allInstrs(f, func(i ssa.Instruction) {
+		v, ok := i.(ssa.Value)
+		if !ok {
+			return
+		}
+		if b, isB := v.Type().Underlying().(*types.Basic); !isB || b.Kind() != types.Bool {
+			return
+		}
+		switch v.(type) {
+		case *ssa.Phi, *ssa.BinOp:
+		default:
+			return
+		}
+		isReset, mixed := false, false
+		for _, t := range p.Origins().Of(v) {
+			if t.Has(func(x *Term) bool {
+				return x.Op == "field" && x.Name == "Reset_" || x.Op == "call" && strings.HasSuffix(x.Name, ".GetReset_")
+			}) {
+				isReset = true
+			}
+			// a condition that also depends on the registry (`known && reset`) says nothing about reset when false
+			if t.Has(func(x *Term) bool { return x.Op == "lookup" || x.Op == "lookupok" }) {
+				mixed = true
+			}
+		}
+		// `a && b` is φ[false ← ¬a, b]: its falsity says "not a reset" only if a, too, is about the Reset_ field
+		if ph, isPhi := v.(*ssa.Phi); isPhi && isReset {
+			for k, ed := range ph.Edges {
+				if _, isC := ed.(*ssa.Const); !isC {
+					continue
+				}
+				pr := ph.Block().Preds[k]
+				ifi, ok := pr.Instrs[len(pr.Instrs)-1].(*ssa.If)
+				if !ok {
+					mixed = true
+					continue
+				}
+				pure := false
+				for _, t := range p.Origins().Of(ifi.Cond) {
+					if t.Has(func(x *Term) bool {
+						return x.Op == "field" && x.Name == "Reset_" || x.Op == "call" && strings.HasSuffix(x.Name, ".GetReset_")
+					}) {
+						pure = true
+					}
+				}
+				if !pure {
+					mixed = true
+				}
+			}
+		}
+		if isReset && !mixed {
+			resetPaths = append(resetPaths, p.lpath(v))
+		}
+	})
+	isNotReset := func(fs AtomSet) bool {
+		if fs.IsNil("p:rpc.Reset_") {
+			return true
+		}
+		for _, rp := range resetPaths {
+			if fs.False(rp) {
+				return true
+			}
+		}
+		return false
+	}
+	if len(resetPaths) == 0 {
+		c.undecided(rule, "processStreamingRpc:reset-predicate", "no boolean computed from the envelope's Reset_ field found in processStreamingRpc")
+	}
 	n := 0
 	for _, ci := range p.callsTo(f, "goat.handler.resetStream", false) {
 		n++
 		fs := p.Facts(ci.(ssa.Instruction))
 		unknown := fs.False(has)
-		notReset := false
-		for k := range fs {
-			if strings.HasPrefix(k, "false(") && !strings.Contains(k, "has:") {
-				notReset = true
-			}
-		}
+		notReset := isNotReset(fs)
 		reason := fs.NonNil("p:rpc.Body")
 		for k := range fs {
 			if strings.HasPrefix(k, "nonnil(v:") && strings.HasSuffix(k, "#2)") {
@@ -450,12 +516,7 @@ func ruleUnknownStream(c *Ctx, rule string) {
 			}
 		}
 		ok := fs.False(has) && fs.IsNil("p:rpc.Body") && fs.IsNil("p:rpc.Trailer")
-		notReset := false
-		for k := range fs {
-			if strings.HasPrefix(k, "false(") && !strings.Contains(k, "has:") {
-				notReset = true
-			}
-		}
+		notReset := isNotReset(fs)
 		c.check(rule, "processStreamingRpc:open", ok && notReset, "a handler is started only for an unknown id, by an envelope that is not a reset and carries neither body nor trailer: "+fs.String(), p.ipos(g))
 	}
 	// a reset / trailer for an unknown stream writes nothing: every return under those facts is not preceded by a write or reset
